@@ -1,81 +1,83 @@
-# evaluated by mkmanifest.py
-claim("C20",
-  "Bounded symbolic model checking of the real BasicSeqnoValidator.validate: one step from an arbitrary store state over all 2^64 x 2^64 (seqno, nonce) pairs and store-read failures (accept iff seqno > nonce, store = accepted seqno, nonce never decreases, never Reject for well-formed seqnos), seqno lengths 0..9 (no panic), and sequential histories of K=4 (thorough 6) arbitrary seqnos (accepted seqnos strictly increasing, store = maximum). A solver verdict covers every value inside those bounds; nothing is claimed outside them.",
-  "Plus a thread harness: two validations of one author run concurrently, every interleaving of their RWMutex operations explored by the engine's thread mode with symbolic seqnos (same seqno never accepted twice, store = highest accepted). The PeerMetadataStore is a harness fake whose Put succeeds or fails symbolically; 2 threads; data-race freedom of the store accesses assumed.",
-  "DESIGN.md §4 C20")
-claim("C19",
-  "Bounded symbolic model checking over the real constructors and routers (NewGossipSub/NewFloodSub/NewRandomSub with a fake host): Join/Leave of every router record exactly one JOIN resp. LEAVE event for the topic.",
-  "Thin check so far (JOIN/LEAVE alternation under the three routers); GRAFT/PRUNE/stream/DELIVER/SEND/DROP accounting harnesses are being added. File/remote tracers (I/O) are outside.",
-  "DESIGN.md §4 C19")
+# evaluated by mkmanifest.py  --  claim(id, level text, note (what is outside / stubs), design ref)
+B = "Bounded symbolic model checking of the real code (go/ssa -> symgo -> SMT; solver verdict over every value inside the bounds, counterexamples replayed natively): "
+
+claim("C01",
+  B + "NETWORK COMPOSITION of N=3 real nodes (real PubSub + real FloodSubRouter / RandomSubRouter built by the real constructors) wired through their real outbound queues and handleIncomingRPC, line and ring topologies, one harness per role assignment in {bystander, subscriber, relay}^3 (floodsub 28 quick + 16 thorough, randomsub 6): every subscriber receives a published message exactly once, non-subscribers never, nothing is delivered twice, no RPC is left undelivered.",
+  "floodsub and randomsub only: gossipsub mesh formation / gossip repair across nodes, more than 3 nodes, churn during propagation and mixed-protocol networks are NOT decided (their single-node obligations are C06/C07/C17). Publisher, arrival order of queued RPCs and roles are concrete per harness.",
+  "DESIGN.md §4 C01")
 claim("C02",
-  "Bounded symbolic model checking of the real FirstSeenCache/LastSeenCache (Add, Has, sweep) in package timecache: histories of K=4 (thorough 6) symbolic operations over 2 (3) IDs with symbolic TTL and symbolic non-decreasing clock against a first/last-sighting oracle (Add true iff not remembered, retention for at least the TTL, forgotten by the first sweep after the TTL), plus the same operations as one step from an arbitrary cache state (covers histories of any length for the expiry arithmetic, including sweep exactly at the expiry instant).",
-  "The background sweeper goroutine is stopped and sweeps happen at solver-chosen instants; the validation-pipeline gate (markSeen before validators/delivery) and the concurrent race of copies are not yet decided here (see C04 harnesses when registered); virtual clock.",
+  B + "FirstSeenCache/LastSeenCache Add/Has/sweep as histories of K=4 (thorough 6) symbolic operations over 2 (3) IDs with symbolic TTL and clock against a first/last-sighting oracle; the same as ONE step from an arbitrary cache state (any history length for the expiry arithmetic, sweep exactly at the expiry instant included); the REAL background sweeper goroutine receiving one tick forgets exactly the entries expired before the tick; and the validation pipeline's seen gate (markSeen before validators, second copy dropped).",
+  "Virtual clock; tickers fire only when the harness delivers a tick; two copies racing through pushMsg on different goroutines are not explored in thread mode.",
   "DESIGN.md §4 C02")
-claim("C15",
-  "Bounded symbolic model checking of the real rpcQueue: K=5 (thorough 6) symbolic Push/UrgentPush/Pop/cancel/Close operations for every capacity 1..3 against a two-list reference model (capacity never exceeded, ErrQueueFull iff full, urgent before normal, FIFO per class, nothing lost or duplicated, closed/cancelled errors, push on closed reported), and the blocking conditions of Pop and blocking Push from every prefilled state.",
-  "Plus thread harnesses (engine thread mode: every interleaving at visible operations, sync.Cond modelled as the runtime implements it, context.AfterFunc callbacks as threads): Pop||cancel (no lost wake-up), Pop||Push, two blocking Pushes on a full queue||Pop (capacity never exceeded, exactly one pusher proceeds), capacity 2 with two blocked pushers||two Pops (both proceed), Pop||Close. Scheduling points are lock acquisitions, Cond.Wait phases, the ctx.Done poll and cancel (sound under data-race freedom); <=3 threads; counterexample schedules are replayed deterministically in the engine, not natively.",
-  "DESIGN.md §4 C15")
-claim("C17",
-  "Bounded symbolic model checking of the real MessageCache: K=6 (thorough 7, all window shapes gossip<=history<=3) symbolic Put/Get/GetForPeer/GetGossipIDs/Shift operations over 2 message IDs, 2 topics, 2 peers against a ghost age per message: retrievable exactly HistoryLength heartbeats, advertised exactly once during the first HistoryGossip heartbeats and only for its topic, per-peer transmission counts exact and forgotten with the message.",
-  "Message-cache part only so far; IHAVE/IWANT/IDONTWANT handler limits and promise tracking harnesses are being added. Precondition: an ID is Put at most once per window (seen cache, C02).",
-  "DESIGN.md §4 C17")
+claim("C03",
+  B + "the inbound path shouldPush -> checkSigningPolicy -> pushMsg -> validation.validate -> verifyMessageSignature -> messagePubKey under all four signature policies crossed with author/anonymous mode (6 configurations): field presence (signature, from, seqno, key), self-authorship, forwarder and the OUTCOME CLASSES of the uninterpreted crypto are solver variables; acceptance is asserted EQUAL to the statement's rule in both directions; the key that verifies must be the one bound to the author.",
+  "Cryptography, multihash peer-ID parsing and protobuf marshalling are uninterpreted/trusted; engine-only harnesses (counterexamples confirmed by concrete re-execution in the engine, not natively); outbound signing and the exact signed bytes are outside.",
+  "DESIGN.md §4 C03")
+claim("C04",
+  B + "the validation pipeline (validate, doValidateTopic, validateTopic, validateSingleTopic, validateMsg, makeValidator) with n=2 and n=3 validators: symbolic verdict per validator (incl. out-of-range values), inline/asynchronous placement, per-validator and global throttle, local vs remote origin, ID already seen, asynchronous results in every order; outcome class, RejectMessage reason, release exactly once, error to a local publisher and at most one invocation per validator compared with the precedence oracle; plus peerScore.RejectMessage/DuplicateMessage over all 11 rejection reasons.",
+  "Validator timeouts are the application's; n<=3; asynchronous validator goroutines run at the first point where the collector could block (result order symbolic).",
+  "DESIGN.md §4 C04")
+claim("C05",
+  B + "from an arbitrary interest state (0..2 subscriptions, 0..2 relay references) one real handler (add/remove subscription, add/remove relay): the announced interest equals subs+relays>0 with exactly one announcement per edge; a remote observer folding the announcements ends with the true state; an announcement that hits a full outbound queue is retried by the real announceRetry goroutine, which re-checks subscriptions AND relays, and a withdrawn interest is not re-announced.",
+  "One topic; hello-vs-queued-announcement ordering on a new stream and single-direction stream resets are outside.",
+  "DESIGN.md §4 C05")
+claim("C06",
+  B + "step-inductive: from an ARBITRARY gossipsub router state (P=3; up/protocol/topic membership/direct/mesh/fanout/score/IDONTWANT record all solver variables) the real publishMessage -> Publish -> rpcs -> sendRPC for a message with symbolic source, author and Local flag, with and without flood publishing: the set of queues that received a copy equals the statement's recipient rule (incl. fresh fanout = min(D, eligible), remembered with lastpub) and each copy is the accepted message; same for FloodSubRouter.",
+  "Stated precondition: mesh/fanout members are known topic members; thresholds concrete, scores symbolic; partial messages off; randomsub's size rule only via C01.",
+  "DESIGN.md §4 C06")
 claim("C07",
-  "Bounded symbolic model checking, step-inductive: from an ARBITRARY gossipsub router state over P=3..4 peers and one topic (every membership bit, protocol, direction, direct flag, backoff expiry and score a solver variable; built on a node made by the real constructors) ONE real handler is executed and its post-state and wire output are compared with the statement: handleGraft admission rules and PRUNE on refusal, handlePrune, Join (fresh and fanout promotion; GRAFT to exactly the added peers), Leave (PRUNE + unsubscribe backoff), departure of a peer, and a full heartbeat (no negative member remains, under-subscription refill to D, over-subscription cut to D keeping the Dscore best and Dout outbound members, never grafting ineligible peers, GRAFT/PRUNE on the wire for every change) for the parameter tuples (D,Dlo,Dhi,Dscore,Dout)=(2,1,3,1,0) and the all-zero bootstrapper tuple (thorough: + (2,2,3,2,0) with opportunistic grafting, P=4 tuples, P=5 with Dout=1).",
-  "One topic; thresholds concrete in these harnesses (scores symbolic through the real peerScore with an application-specific score of weight 1); shufflePeers/shuffleStrings are summarised as 'any permutation'; GossipFactor=0; partial-message extension off; heartbeat at P=3 in the quick tier.",
+  B + "step-inductive: from an ARBITRARY router state over P=3 peers and one topic ONE real handler runs and post-state + wire output are compared with the statement: handleGraft (admission rules, PRUNE on refusal, negative score), handlePrune, Join (fresh and fanout promotion), Leave, peer departure, a full heartbeat for the tuples (D,Dlo,Dhi,Dscore,Dout)=(2,1,3,1,0) and all-zero (thorough: (2,2,3,2,0) with opportunistic grafting, P=4, P=5 with Dout=1), and the heartbeat's coalescing GRAFT/PRUNE sender over two topics and three peers (exactly one GRAFT/PRUNE per change, also for a peer grafted and pruned in the same heartbeat).",
+  "One topic except in graftprune; D>=4 / P>=6 (outbound-quota rotation with >=2 outbound peers) outside; shuffles summarised as any permutation; GossipFactor=0; thresholds concrete.",
   "DESIGN.md §4 C07")
 claim("C08",
-  "Bounded symbolic model checking, step-inductive over an arbitrary router state (P=3): a GRAFT received during backoff is refused with a PRUNE, not admitted, penalised (doubly inside the graft-flood threshold), extends the backoff and the PRUNE to a v1.1+ peer states the backoff; clock and expiry symbolic so every boundary (now == expiry) is inside.",
-  "Refusal/penalty clause so far; the no-early-GRAFT clause over Join/heartbeat/retry sites is covered indirectly by C07's 'never grafts a backed-off peer' assertions and is being added here explicitly.",
+  B + "step-inductive over an arbitrary router state (P=3): a GRAFT during backoff is refused with a PRUNE, not admitted, penalised (doubly inside the graft-flood threshold), the backoff is extended and stated to v1.1+ peers; clock and expiry symbolic so every boundary now==expiry is inside; Join never grafts a backed-off peer (heartbeat side asserted in C07's heartbeat harnesses).",
+  "Backoff offsets within +-2^38 ns of now; one topic.",
   "DESIGN.md §4 C08")
+claim("C09",
+  B + "thresholds AND scores as solver variables (thresholds assumed accepted by the real PeerScoreThresholds.validate; scores through the real peerScore): AcceptFrom, handleIncomingRPC under AcceptNone, handleIHave/handleIWant at the gossip threshold, emitGossip recipients, handlePrune/pxConnect at the accept-PX threshold, GRAFT from a negative-score peer; equality with each threshold is inside the queries.",
+  "No peer gater; PX records without valid signed envelopes; P=2..3.",
+  "DESIGN.md §4 C09")
 claim("C10",
-  "Bounded symbolic model checking of the real peerScore.score / ipColocationFactor on an ARBITRARY peerStats state (one scored topic, one IP shared by 0..4 peers) with symbolic TopicScoreParams/PeerScoreParams assumed accepted by the REAL validate() functions (atomic and non-atomic mode): no panic for any accepted parameter set; the result equals the GossipSub v1.1 formula transcribed from the spec (topic half and global half compared separately, IEEE-754 semantics, first with FP operations abstracted to uninterpreted functions, exact on cvc5 otherwise); never NaN for magnitudes <= 1e12; penalty components never raise and P2 never lowers the score.",
-  "Event handlers (graft/prune/deliver/reject/decay/retention) are not yet compared with reference transitions; magnitudes bounded by 1e12; signed zeros identified; counters assumed non-negative numbers; whitelist empty; one topic.",
+  B + "peerScore on an ARBITRARY peerStats state with symbolic Topic/PeerScoreParams assumed accepted by the REAL validate() (atomic and non-atomic): score() never panics, equals the GossipSub v1.1 formula (IEEE-754; topic and global halves), is never NaN, penalties never raise it; and ONE step of every event handler against the statement's bookkeeping: DeliverMessage, DuplicateMessage (delivery window edge, once per peer), RejectMessage for each of the 11 reasons, Graft/Prune (sticky penalty once), OnClosedOutboundStream (retention rule; sticky penalty only while in the mesh), refreshScores (decay, decay-to-zero, mesh time, activation, retention expiry; counters stay non-negative numbers for every accepted parameter set), AddPenalty, SetTopicScoreParams re-capping.",
+  "Magnitudes <= 1e12 (overflow to Inf excluded); one scored topic, one IP shared by 0..4 peers, whitelist empty; signed zeros identified; FP queries first with operations abstracted to uninterpreted functions, then exact on cvc5.",
   "DESIGN.md §4 C10")
 claim("C11",
-  "Bounded symbolic model checking of the real RPC.split (range-over-func) and the generated pb Size(): RPCs of two shapes (2 published messages with symbolic payload lengths <= 300 + 1 subscription; 1 subscription + 1 GRAFT + 2 IWANT IDs + 1 IDONTWANT ID) against every limit in a symbolic range: every element appears in exactly one fragment, no empty fragment, every fragment fits the limit unless it carries a single indivisible element.",
-  "Small shapes (element counts above are the bound); payload bytes are opaque (only lengths matter to Size/split); sendRPC/doDropRPC re-queuing is not yet covered; PRUNE/IHAVE/extension shapes are in the thorough tier only when they run within budget.",
+  B + "RPC.split (range-over-func) and the generated pb Size() for four element mixes (<=2 messages with symbolic payload <=300 B, subscription, GRAFT, PRUNE, IWANT/IHAVE/IDONTWANT IDs, extensions) against every limit of a symbolic range: each element in exactly one fragment, no empty fragment, each fragment within the limit unless a single indivisible element; and the router's send path sendRPC (4 variants: pending GRAFT retry and pending gossip piggybacked before sizing, oversized message): nothing above the limit is queued, everything queued exactly once, an oversized message dropped and reported, nothing both queued and kept for retry.",
+  "Small shapes (the element counts are the bound); payload bytes opaque; sendRPC: limit symbolic in 48..100 with concrete payload size per variant.",
   "DESIGN.md §4 C11")
-claim("C04",
-  "Bounded symbolic model checking of the real validation pipeline (validation.validate, doValidateTopic, validateTopic, validateSingleTopic, validateMsg, makeValidator) with n=2 and n=3 validators: per validator a symbolic verdict (Accept/Reject/Ignore and out-of-range values), symbolic inline/asynchronous placement and symbolic per-validator throttle; symbolic global throttle, local vs remote origin, ID already seen; asynchronous results received in every order (result channels are bags). Outcome class, RejectMessage reason, release exactly once, error returned to a local publisher and 'at most one invocation per validator' are compared with the precedence oracle written from the statement. Plus the real peerScore.RejectMessage/DuplicateMessage over all 11 rejection reasons: source and every forwarder penalised exactly for real rejections, never for Ignore/throttle/queue-full/blacklist.",
-  "Asynchronous validator goroutines are run at the first point where the collector could block (their result order stays symbolic); validators that outlive an early Reject are not interleaved with later code; validator timeouts are the application's; n<=3.",
-  "DESIGN.md §4 C04")
-claim("C03",
-  "Bounded symbolic model checking of the real inbound path shouldPush -> checkSigningPolicy -> pushMsg -> validation.validate -> verifyMessageSignature -> messagePubKey under all four signature policies crossed with author/anonymous mode (6 configurations): field presence (signature, from, seqno, key), self-authorship, forwarding peer and the OUTCOME CLASSES of the uninterpreted crypto (author bytes parse, key extractable, attached key parses, attached key is the author's, signature verifies) are solver variables; acceptance is asserted EQUAL to the statement's rule in both directions. No size bound: every presence/outcome combination is inside one query per configuration.",
-  "Cryptography, multihash peer-ID parsing and protobuf marshalling are uninterpreted/trusted (contract: exactly the key bound to the author verifies exactly the valid signatures); engine-only harnesses: counterexamples are confirmed by concrete re-execution in the engine, not natively; outbound signing (signMessage) and the exact bytes that are verified are not yet covered.",
-  "DESIGN.md §4 C03")
-claim("C18",
-  "Bounded symbolic model checking of the real TopicEventHandler coalescing log (sendNotification/addToEventLog, NextPeerEvent/pullFromEventLog): one step from an ARBITRARY log state over two peers satisfying the invariant truth = fold(consumer view, pending entry) and 'non-empty log has its wake-up signal armed' (both log insertion orders): invariant preserved, NextPeerEvent blocks exactly when nothing is pending, returned events strictly alternate per peer; and histories of K=4 (thorough 6) symbolic notifications/pulls from the empty handler: after draining, applying the returned events reproduces the member set.",
-  "Events fed to the log are admissible per the join/leave sources (join only when absent, leave only when present); map iteration order = insertion order with both insertion orders covered; concurrent consumers/cancellation not covered (sequential).",
-  "DESIGN.md §4 C18")
-claim("C06",
-  "Bounded symbolic model checking, step-inductive: from an ARBITRARY gossipsub router state (P=3 peers: up/protocol/topic membership/direct/mesh/fanout/score/IDONTWANT record all solver variables) the real publishMessage -> GossipSubRouter.Publish -> rpcs -> sendRPC is run for a message with symbolic source, author (peers, self, stranger) and Local flag, with and without flood publishing; the set of queues that received a copy is compared with the statement (never to source/author/non-members/anyone for Local; always to direct peers, floodsub peers at/above the publish threshold, mesh members or the kept fanout set minus IDONTWANT announcers; fresh fanout = min(D, eligible) eligible peers, remembered; flood publish to every topic peer direct or at/above the threshold) and each copy is pointer-identical to the accepted message. Same for FloodSubRouter.",
-  "Stated precondition: mesh/fanout members are known topic members (remote UNSUBSCRIBE without PRUNE, candidate F16, is outside); thresholds concrete, scores symbolic; randomsub and fanout maintenance at the heartbeat not yet covered; partial messages off.",
-  "DESIGN.md §4 C06")
-claim("C09",
-  "Bounded symbolic model checking with thresholds AND scores as solver variables (thresholds assumed accepted by the real PeerScoreThresholds.validate in atomic and non-atomic mode; scores through the real peerScore): AcceptFrom (direct always, graylist), handleIncomingRPC under AcceptNone (payload and control ignored), handleIHave/handleIWant at the gossip threshold, emitGossip recipients (non-mesh, non-direct, mesh-capable, at/above the gossip threshold; min(candidates, Dlazy)), handlePrune/pxConnect at the accept-PX threshold (<= PrunePeers, never already connected peers). Equality with each threshold is inside the queries. Negative-score GRAFT refusal without PX and heartbeat pruning are asserted in the C07 harnesses; publish-threshold rules in C06.",
-  "No peer gater configured (its randomised decision is outside); PX records without signed envelopes (envelope validity is cryptography); P=2..3.",
-  "DESIGN.md §4 C09")
-claim("C13",
-  "Bounded symbolic model checking of peer teardown: peer x may own an entry in every per-peer structure of the node (queues, topic membership, router peer set, mesh, fanout, pending gossip/control, direction, IDONTWANT records, backoff, flood counters, extension handshake state, score statistics, connection-manager protection — symbolic bits), its outbound and inbound streams die in a symbolic order (real handleDeadPeers / onClosedIncomingStream) with an optional late GRAFT or first RPC arriving on the inbound stream that outlives the outbound one; after the retention periods (clock advanced, one backoff-clearing heartbeat, IDONTWANT TTL, score refresh) x occurs in none of them.",
-  "gossipsub only; one topic; gater, gossip-tracer promises and partial-message state not included; blacklist-driven teardown not included.",
-  "DESIGN.md §4 C13")
-claim("C16",
-  "Bounded symbolic model checking through the REAL processLoop (driven by a scripted environment: the harness offers one value on a request channel, the loop runs until it has nothing left to do): BlacklistPeer(x) from an arbitrary gossipsub state (x unknown / queue created / fully up and in mesh, fanout, topic membership) => x is in the blacklist, gone from the outbound queues, peer lists, router peer set, mesh and fanout, its queue closed; symbolic follow-ups (message forwarded by x, message authored by x via an honest peer, reconnect notification, heartbeat + local publish) deliver nothing of x and send nothing to x. Direct use of the Blacklist object (inbound rejection by forwarder and by author with the right trace reason). A message already in the validation pipeline when its forwarder/author is blacklisted is not delivered after validation.",
-  "MapBlacklist only (the time-cached implementation's expiry is by design); late outbound-stream completion for a blacklisted peer (newPeerStream case) not driven; P=2.",
-  "DESIGN.md §4 C16")
-claim("C14",
-  "Bounded symbolic model checking of the blocking structure after shutdown: the instance context is cancelled, the REAL processLoop runs to its exit, then each of 14 public API entry points (Join, Subscribe, Relay, Publish x1..3, AddToBatch+PublishBatch x3, ListPeers, GetTopics, BlacklistPeer, RegisterTopicValidator, UnregisterTopicValidator, EventHandler, Topic.Close, Subscription.Cancel, SetScoreParams) is evaluated: a path that reaches a channel operation with no enabled alternative is a violation ('blocks forever').",
-  "Only calls issued AFTER the loop has exited are covered; calls in progress at the moment of cancellation, goroutine termination and time bounds are outside (no environment mode for concurrent callers in this engine); gossipsub router.",
-  "DESIGN.md §4 C14")
-claim("C05",
-  "Bounded symbolic model checking: from an arbitrary interest state (0..2 subscriptions, 0..2 relay references, fanout-only flag) one real handler (handleAddSubscription, handleRemoveSubscription with 0..2 buffered messages, handleAddRelay, handleRemoveRelay) runs: exactly one announcement on the edges of announced=(subs>0 and not fanout-only) or relays>0 and none otherwise, router Join/Leave in step, reference counts exact, cancelled subscription drains then reports cancellation, getHelloPacket lists exactly the announced topics; handleIncomingRPC subscription bookkeeping (membership follows the last announcement, empty topic maps removed).",
-  "Announcement retry on a full queue, hello-vs-queued-announcement ordering and single-direction stream resets (candidate F9) are not covered; one topic.",
-  "DESIGN.md §4 C05")
 claim("C12",
-  "Bounded symbolic model checking: an arbitrary valid gossipsub node (P=2, scoring, direct peers, peer exchange on) receives ONE structurally arbitrary RPC — every optional field nil or set, empty/unknown/40-byte topics and message IDs, control about unknown topics, extreme backoff values, bogus peer-exchange entries and records, seqno of any length 0..9, payload sizes 0..2048, from a known, unknown or empty sender — through the real handleIncomingRPC and everything it reaches (AcceptFrom, Preprocess, pushMsg, HandleRPC, all control handlers, extensions): no panic, no blocking operation, other peers keep their open queues, representation invariant preserved. Plus the built-in seqno validator on wrong-length encodings.",
-  "One RPC per step from an arbitrary state (step-inductive); elements of repeated fields are non-nil as Unmarshal produces them; byte-level framing and the generated Unmarshal on arbitrary buffers are NOT decided (did not finish within budget at 4 bytes); floodsub/randomsub handlers and the partial-message extension are not included.",
+  B + "an arbitrary valid gossipsub node (P=2, scoring, direct peers, PX) receives ONE structurally arbitrary RPC (every optional field nil or set, hostile topics / IDs / backoffs / PX entries, known or unknown sender): handleIncomingRPC and everything it reaches neither panics nor blocks, other peers' queues stay open, the router invariant is kept; the same with allowlist / limit subscription filters and repeated topics with absent flags; the seqno validator on wrong-length encodings.",
+  "Elements of repeated fields are non-nil as Unmarshal produces them; the generated Unmarshal on arbitrary bytes, the regexp filter and valid signed peer records of unexpected type are outside.",
   "DESIGN.md §4 C12")
-claim("C01",
-  "Bounded symbolic NETWORK COMPOSITION: N=3 real nodes (real PubSub + real FloodSubRouter / RandomSubRouter built by the real constructors) in one harness; role assignments (bystander / subscriber with two subscriptions / relay only) and the order of role taking vs connecting enumerated concretely (38 floodsub compositions in quick, all 52 in thorough; 6 randomsub), links (all 8 link sets) and publisher (3) symbolic per composition; lock-step transport through the real outbound queues into the neighbour's real handleIncomingRPC, hello packets first. Asserted per composition: a subscription receives the message exactly once iff its node is reachable from the publisher through overlay members, never twice; on a connected overlay every subscription of every subscriber exactly once, including a publisher that neither subscribes nor relays and relay-only cut vertices.",
-  "floodsub and randomsub (<= RandomSubD peers, exhaustive) only: gossipsub mesh formation/gossip repair compositions and mixed-protocol networks are NOT decided here (their single-node obligations are C06/C07/C17); N=3; no churn after the roles are taken; transport is lock-step (per-round delivery order fixed); virtual clock.",
-  "DESIGN.md §4 C01")
+claim("C13",
+  B + "peer teardown: peer x may own an entry in every per-peer structure of the node (18 symbolic bits: queues, topic membership, router peer set, mesh, fanout, pending gossip/control, direction, IDONTWANT records, backoff, flood counters, extension state, score statistics and IP bookkeeping, connection-manager protection), its outbound and inbound streams die in a symbolic order with an optional late GRAFT / first RPC on the surviving inbound stream; after the retention periods x occurs in none of them.",
+  "gossipsub only; one topic; gater, gossip-tracer promises and partial-message state not included.",
+  "DESIGN.md §4 C13")
+claim("C14",
+  B + "blocking structure after shutdown: the instance context is cancelled, the REAL processLoop runs to its exit, then each of 15 public API entry points (incl. relay cancel and an in-flight hand-off) must return rather than block; Publish with a full sendMsg buffer.",
+  "Calls in progress at the moment of cancellation beyond those cases, goroutine termination and time bounds are outside.",
+  "DESIGN.md §4 C14")
+claim("C15",
+  B + "rpcQueue: K=5 (thorough 6) symbolic Push/UrgentPush/Pop/cancel/Close operations for every capacity 1..3 against a two-list reference model, blocking conditions from every prefilled state; plus THREAD harnesses exploring every interleaving at synchronisation operations (sync.Cond modelled as the runtime implements it, AfterFunc callbacks as threads): Pop||cancel (no lost wake-up), Pop||Push, blocking Pushes||Pop, two pushers, Pop||Close.",
+  "<=3 threads; thread counterexamples are replayed deterministically in the engine, not natively; sound under data-race freedom.",
+  "DESIGN.md §4 C15")
+claim("C16",
+  B + "through the REAL processLoop driven by a scripted environment: BlacklistPeer at an arbitrary router state (P=2) removes the peer everywhere and closes its queue, later messages from it or authored by it are dropped with the blacklist reason, reconnects get no queue, nothing is sent to it; direct blacklisting through the Blacklist implementation; a message already in the validation pipeline; an outbound stream completing after direct blacklisting is refused.",
+  "MapBlacklist (TimeCachedBlacklist expiry is by design); P=2.",
+  "DESIGN.md §4 C16")
+claim("C17",
+  B + "MessageCache as K=6 (thorough 7) symbolic operations vs a ghost age per message; handleIHave from arbitrary per-heartbeat counters (requests = min(unseen advertised, budget), counters exact, one promise), handleIWant over K=3 RPCs (retransmission limit, unwanted, expired), handleIDontWant caps and TTL ageing, Preprocess (size threshold, v1.2+, mesh, not the sender), the promise tracker as K=4 (6) operations vs a ghost table (penalty only if the message arrived from nobody in time) and applyIwantPenalties, and real heartbeats (advertised HistoryGossip, served HistoryLength heartbeats, counters reset each heartbeat).",
+  "Small parameter values (MaxIHaveLength 3, MaxIHaveMessages 2, GossipRetransmission 2, MaxIDontWant* 2/3, TTL 2) are the bound; 2 messages, 1-2 peers.",
+  "DESIGN.md §4 C17")
+claim("C18",
+  B + "TopicEventHandler coalescing log: one step from an ARBITRARY log state over two peers satisfying truth = fold(consumer view, pending entry) with the wake-up signal armed iff non-empty (both insertion orders): invariant preserved, NextPeerEvent blocks exactly when nothing is pending (cancelled consumer included), returned events alternate per peer; and histories of K=4 (thorough 6) notifications/pulls: after draining, the returned events reproduce the member set.",
+  "Events fed to the log are admissible per the join/leave sources; concurrent consumers not covered.",
+  "DESIGN.md §4 C18")
+claim("C19",
+  B + "with a recording tracer attached: Join/Leave of every router record exactly one JOIN resp. LEAVE; from an arbitrary gossipsub state ONE real handler (handleGraft, handlePrune, Join, Leave, heartbeat, peer departure) — replaying the recorded stream-opened/closed, GRAFT, PRUNE, JOIN, LEAVE events as set operations on the pre-state rebuilds the router's peer set and mesh; exactly one DELIVER_MESSAGE per accepted message and one PUBLISH_MESSAGE per local attempt (3 routers); every RPC accepted resp. refused by an outbound queue has exactly one SEND_RPC resp. DROP_RPC event (announce, gossipsub, floodsub, randomsub paths; queue room symbolic).",
+  "In-memory tracer; JSON/protobuf/remote tracer writers (file and network I/O) and the contents of per-RPC metadata are outside.",
+  "DESIGN.md §4 C19")
+claim("C20",
+  B + "BasicSeqnoValidator.validate: one step from an arbitrary store state over all 2^64 x 2^64 (seqno, nonce) pairs and store failures, seqno lengths 0..9, sequential histories of K=4 (thorough 6) arbitrary seqnos (accepted seqnos strictly increasing, store = maximum), and a THREAD harness: two validations of one author concurrently, every interleaving of their RWMutex operations (same seqno never accepted twice).",
+  "PeerMetadataStore is a harness fake whose Put succeeds or fails symbolically; 2 threads; data-race freedom assumed.",
+  "DESIGN.md §4 C20")
